@@ -90,7 +90,7 @@ def run(
     depth=None,
     seed=None,
     env=None,
-    timeout=1800,
+    timeout=5400,
     coverage=True,
     deque=False,
     extra_files=(),
